@@ -1290,6 +1290,44 @@ def big_slab_family(rep, prefix, tcfg, what):
         hist_stage(rep, "%s-bigslab-%d" % (prefix, T), ["nested-run", "-tail", "4"], "nested", "NestedTrace.tla", tcfg, [f], "tail", what)
 
 
+def many_types_family(rep, prefix, tcfg, what):
+    """Scripted family: ONE slab whose inlined children use 26-40 distinct type infos, each by an inlined array and an inlined map
+    (a type info used twice is written once and referred to by its index in the shared section: indexes above 23 take two bytes);
+    commit, reload, read everything, mutate one child, commit, reload."""
+    T = 2048
+    hists = []
+    for parent in ("A", "M"):
+        for ntypes in (26, 31, 40):
+            h = [["root", 1, "A"]]
+            p, nxt = 1, 2
+            if parent == "M":
+                h.append(["n.appc", 1, nxt, "M", 0]); p = nxt; nxt += 1
+            kids = []
+            for i in range(ntypes):
+                for kind in ("A", "M"):
+                    if parent == "A":
+                        h.append(["n.appc", p, nxt, kind, 0])
+                    else:
+                        h.append(["n.msetc", p, len(kids) + 1, 5, nxt, kind, 0])
+                    h.append(["n.settype", nxt, 30 + i])
+                    kids.append(nxt); nxt += 1
+            h += [["commit", "det", 2, 0], ["crash"]]
+            if parent == "M":
+                h.append(["n.get", 1, 0, p])
+            v = len(kids) - 2
+            h.append(["n.get", p, v, kids[v]] if parent == "A" else ["n.mget", p, v + 1, 5, kids[v]])
+            h += [["n.app", kids[v], 1, 12, 0], ["commit", "nondet", 2, 0], ["crash"]]
+            hists.append(h)
+    f = os.path.join(vlib.scratch(), "%s-manytypes.ndjson" % prefix)
+    with open(f, "w") as fh:
+        fh.write(json.dumps({"cfg": {"T": T}}) + "\n")
+        for h in hists:
+            fh.write(json.dumps(h) + "\n")
+    base = len(rep.distinct)
+    rep.distinct.update(range(base, base + len(hists)))
+    hist_stage(rep, "%s-manytypes" % prefix, ["nested-run", "-tail", "8"], "nested", "NestedTrace.tla", tcfg, [f], "tail", what)
+
+
 def nested_stages(rep, prefix, tcfg, what):
     quick = rep.tier == "quick"
     plans = [(256, "{12, 60, 110}", 200 if quick else 1500, 100 if quick else 200, 6, 6),
@@ -1947,6 +1985,7 @@ def check_C07(rep):
                 "header copies, inlined children) must EQUAL the forest of the in-memory slabs that produced the registers, and satisfy TreeInv")
     persist_stages(rep, "c07", "C07", "decoded registers differ from the slabs that produced them")
     nested_stages(rep, "c07", "NestedTrace_C07.cfg", "register does not round-trip / header flags do not describe the slab")
+    many_types_family(rep, "c07", "NestedTrace_C07.cfg", "register does not round-trip (more than 24 shared type infos in one slab)")
 
 
 def check_C06(rep):
